@@ -209,7 +209,10 @@ def run_packing(cfg, out):
                     elif mode < 0.5:
                         for _ in range(r.randint(1, 6)):
                             size = r.choice([0, 1, 2, 3, maxp, maxp - 1, maxp - 2, maxp - 3, maxp // 2, maxp // 2 + 1, maxp // 3, r.randint(0, maxp),
-                                             maxp + 1, r.randint(maxp + 1, 3 * maxp)])
+                                             maxp + 1, r.randint(maxp + 1, 3 * maxp),
+                                             # a last fragment that just fits / just does not fit a datagram of its own
+                                             P.MAX_FRAGMENT_SIZE * r.randint(1, 2) + maxp - r.randint(0, 8),
+                                             P.MAX_FRAGMENT_SIZE * r.randint(1, 2) + maxp - r.randint(0, 8)])
                             run.app.send(ep, side, size, r.choice([0, 1, -1]) if size <= maxp else r.choice([0, -1]), with_cb=False)
                     elif mode < 0.7:
                         # pairs that fit together exactly / miss by one
